@@ -157,6 +157,12 @@ func c11Procedures(c *fw.Case) (o fw.Outcome) {
 	mncs := []string{"00", "000", "01", "001", "010", "100", "09", "99", "999", "900", "08", "012"}
 	cfg.MNC = mncs[k%len(mncs)]
 	cfg.MCC = pick(r, "000", "001", "460", "999", "909", digits(r, 3))
+	if k%3 == 2 {
+		// PLMNs made of the digits of the builders' built-in default (208/93, octets 02 f8 39) shifted and re-split: every
+		// procedure child is a fresh process, so this PLMN is the first one installed over the default
+		d := [][2]string{{"020", "893"}, {"208", "093"}, {"208", "93"}, {"020", "89"}, {"002", "089"}, {"893", "020"}, {"082", "93"}}[(k/3)%7]
+		cfg.MCC, cfg.MNC = d[0], d[1]
+	}
 	total := 15
 	if r.Intn(5) == 0 {
 		total = 14
